@@ -549,6 +549,14 @@ from ..selftest import Mutant, add_method, del_stmt, insert_stmt, replace_expr, 
 
 _B, _CM, _CK, _Q, _E = "blooms/bloom.py", "countminsketch/countminsketch.py", "cuckoo/cuckoo.py", "quotientfilter/quotientfilter.py", "blooms/expandingbloom.py"
 MUTANTS = [
+    Mutant("count-min hashes() remembers the last answer under the key alone (depth not part of the memo key)", _CM,
+           replace_stmt("CountMinSketch", "hashes", "return self._hash_function",
+                        "d = self.depth if depth is None else depth\nif self._memo_key == key:\n    return self._memo_val\nv = self._hash_function(key, d)\nself._memo_key = key\nself._memo_val = v\nreturn v"),
+           rule="C19.query-pure"),
+    Mutant("count-min hashes() remembers the last answer under (key, depth) (a sound memo)", _CM,
+           replace_stmt("CountMinSketch", "hashes", "return self._hash_function",
+                        "d = self.depth if depth is None else depth\nif self._memo_key == (key, d):\n    return self._memo_val\nv = self._hash_function(key, d)\nself._memo_key = (key, d)\nself._memo_val = v\nreturn v"),
+           expect="silent"),
     Mutant("HeavyHitters.clear: delete __top_x_size = 0", _CM, del_stmt("HeavyHitters", "clear", "self.__top_x_size = 0"), rule="C19.clear-covers"),
     Mutant("HeavyHitters.clear: delete __smallest = 0", _CM, del_stmt("HeavyHitters", "clear", "self.__smallest = 0"), rule="C19.clear-covers"),
     Mutant("HeavyHitters.clear: delete __top_x = {}", _CM, del_stmt("HeavyHitters", "clear", "self.__top_x = {}"), rule="C19.clear-covers"),
